@@ -98,6 +98,24 @@ DESC = {
  "A6-m1": "timer: Clock::now() is read before the timer lock is taken (threads only)",
  "A6-m2": "timer: deadlines ordered by signed wrapping distance",
  "A6-m3": "ArrayBuf: index wrap-around via mask for backing arrays with more than 64 elements (breaks user RealArray of 96 / 384 elements)",
+ "B1-m1": "mutex: waker refresh of an already queued waiter moved behind the unlock (threads only)",
+ "B1-m2": "mutex: saturating u16 queue-length counter replaces the list checks (needs > 65535 simultaneously pending lock futures)",
+ "B1-m3": "mutex: guard Drop suppresses the wake-up if somebody re-locked the mutex in the meantime (threads only, unfair)",
+ "B2-m1": "semaphore: lock-free permits() from an atomic mirror that is published after the critical section (threads only)",
+ "B2-m2": "shared semaphore: releaser Drop skips the wake-up pass when Arc::strong_count <= 2 (all user handles dropped, futures live on)",
+ "B2-m3": "semaphore: waker refresh of a still-queued future moved into a second critical section (threads only)",
+ "B3-m1": "mpmc: receive poll stores the waker after the channel lock has been released (threads only)",
+ "B3-m2": "mpmc: close() visits the receive queue only if the buffer is empty",
+ "B3-m3": "mpmc: last sender / last receiver each skip close() if the other side's counter is already 0 (Dekker race on the two handle counters)",
+ "B4-m1": "event: lock-free fast path for redundant set()/reset() through an AtomicBool hint stored after the unlock (threads only)",
+ "B4-m2": "state broadcast: last sender / last receiver each skip close() if the other counter is 0 (Dekker race)",
+ "B4-m3": "shared oneshot: dropping the receiver handle only marks the channel closed, pending receive futures are not woken",
+ "B5-m1": "timer: `impl Timer` for services whose lock is Send instead of Sync (hands out Send futures of a !Sync service)",
+ "B5-m2": "mpmc: clear() replaces the ring buffer instead of popping it empty (one allocation + free in the last receiver's drop)",
+ "B5-m3": "oneshot broadcast: the stored value is cloned after the channel lock was released (two threads inside T::clone of a Send + !Sync payload)",
+ "B6-m1": "timer: re-poll of a registered future refreshes the waker without taking the timer lock (threads only)",
+ "B6-m2": "pairing heap: 'insertion hint' in a new private field that goes stale on one removal path (hidden state, 9 operations, duplicates)",
+ "B6-m3": "timer: lock-free next_expiration() through an AtomicU64 whose 'none' sentinel collides with deadline u64::MAX",
 }
 
 def first_sentence(meta):
